@@ -9,7 +9,9 @@ EXTENDS Wire, Json, IOUtils, SequencesExt
 CONSTANTS SmallLens, BigLens
 
 F(lname, style, words) == [lname |-> lname, style |-> style, words |-> words]
-T(name, lname, value) == [name |-> name, lname |-> lname, value |-> value]
+T(name, lname, value) == [name |-> name, lname |-> lname, value |-> value, seen |-> value]
+\* a trailer whose value is folded over two lines
+TF(name, lname, w1, w2) == [name |-> name, lname |-> lname, value |-> w1 \o "\r\n " \o w2, seen |-> w1 \o " " \o w2]
 HostField == F("host", "canon", <<"example.com">>)
 Ones(n) == [k \in 1 .. n |-> 1]
 
